@@ -25,11 +25,13 @@ open PikaVerif PikaVerif.Snd
     receiver on the way, no operation state was touched after release, the process did not
     terminate, and all operation states that existed before are unchanged. -/
 theorem C03_receiver_contract (cfg : Cfg) (hc : cfg.ok = true) (t : Term) (env : List Int) (k : Rc)
-    (s : M) (ha : s.aborted = false) (hr : s.released = false) :
+    (s : M) (ha : s.aborted = false) (hr : s.released = false) (hF : Fresh s) :
     ∃ s', start cfg t env k s = k (denote t env) s' ∧ s'.log = s.log ∧ s'.uaf = s.uaf ∧
-      s'.aborted = false ∧ s'.released = false ∧ ∀ a, a < s.next → s'.cells a = s.cells a := by
-  obtain ⟨s', e, x⟩ := spec cfg hc t env k s ha hr
-  exact ⟨s', e, x.log, x.uaf, x.aborted, x.released, fun a h => x.cells a h (by omega)⟩
+      s'.aborted = false ∧ s'.released = false ∧
+      ∀ a, a < s.next → s'.cells a = s.cells a ∧ s'.freed a = s.freed a := by
+  obtain ⟨s', e, x⟩ := spec cfg hc t env k s ha hr hF
+  exact ⟨s', e, x.log, x.uaf, x.aborted, x.released,
+    fun a h => ⟨x.cells a h (by omega), x.freed a h⟩⟩
 
 /-- **Exactly one, correct signal.**  Connecting any pipeline to the instrumented terminal
     receiver (which destroys the operation state inside its completion function) and starting
@@ -37,7 +39,7 @@ theorem C03_receiver_contract (cfg : Cfg) (hc : cfg.ok = true) (t : Term) (env :
     no adaptor touches an operation state after the receiver released it. -/
 theorem C03_exec_denotes (cfg : Cfg) (hc : cfg.ok = true) (t : Term) :
     run cfg t = { log := [denote t []], aborted := false, uaf := false } := by
-  obtain ⟨s', e, x⟩ := spec cfg hc t [] termR M.init rfl rfl
+  obtain ⟨s', e, x⟩ := spec cfg hc t [] termR M.init rfl rfl (fun _ _ => rfl)
   simp only [run, e, termR, M.outcome, x.log, x.uaf, x.aborted]
   rfl
 
@@ -70,18 +72,42 @@ theorem C03_fixed_tree (t : Term) :
     `C03_split_stopped_counterexample`.) -/
 theorem C03_exec_denotes_partial (t : Term) (h : stoppedFree t = true) :
     run Cfg.pinned t = { log := [denote t []], aborted := false, uaf := false } := by
-  obtain ⟨s', e, x⟩ := specG Cfg.pinned rfl t (Or.inr h) [] termR M.init rfl rfl
+  obtain ⟨s', e, x⟩ := specG Cfg.pinned rfl t (Or.inr h) [] termR M.init rfl rfl (fun _ _ => rfl)
   simp only [run, e, termR, M.outcome, x.log, x.uaf, x.aborted]
   rfl
 
 /-- The receiver contract in the same generality: any code variant, any term it handles. -/
 theorem C03_receiver_contract_partial (cfg : Cfg) (hw : cfg.wvSendsDone = true) (t : Term)
     (hg : cfg.ok = true ∨ stoppedFree t = true) (env : List Int) (k : Rc)
-    (s : M) (ha : s.aborted = false) (hr : s.released = false) :
+    (s : M) (ha : s.aborted = false) (hr : s.released = false) (hF : Fresh s) :
     ∃ s', start cfg t env k s = k (denote t env) s' ∧ s'.log = s.log ∧ s'.uaf = s.uaf ∧
-      s'.aborted = false ∧ s'.released = false ∧ ∀ a, a < s.next → s'.cells a = s.cells a := by
-  obtain ⟨s', e, x⟩ := specG cfg hw t hg env k s ha hr
-  exact ⟨s', e, x.log, x.uaf, x.aborted, x.released, fun a h => x.cells a h (by omega)⟩
+      s'.aborted = false ∧ s'.released = false ∧
+      ∀ a, a < s.next → s'.cells a = s.cells a ∧ s'.freed a = s.freed a := by
+  obtain ⟨s', e, x⟩ := specG cfg hw t hg env k s ha hr hF
+  exact ⟨s', e, x.log, x.uaf, x.aborted, x.released,
+    fun a h => ⟨x.cells a h (by omega), x.freed a h⟩⟩
+
+/-- **drop_operation_state.**  When `drop_operation_state(p)` calls the connected receiver, every
+    operation state the predecessor pipeline `p` allocated has been destroyed (inside `p`'s own
+    completion call), no adaptor of `p` has touched an operation state after its destruction
+    (`uaf` unchanged), the operation states that existed before are intact, and the signal is the
+    one `p` denotes. -/
+theorem C03_drop_operation_state (cfg : Cfg) (hw : cfg.wvSendsDone = true) (p : Term)
+    (hg : cfg.ok = true ∨ stoppedFree p = true) (env : List Int) (k : Rc)
+    (s : M) (ha : s.aborted = false) (hr : s.released = false) (hF : Fresh s) :
+    ∃ s', start cfg (.dos p) env k s = k (denote p env) s' ∧ s'.uaf = s.uaf ∧ s'.aborted = false ∧
+      (∀ a, s.next < a → a < s'.next → s'.freed a = true) ∧ s'.freed s.next = false ∧
+      (∀ a, a < s.next → s'.freed a = s.freed a ∧ s'.cells a = s.cells a) := by
+  obtain ⟨s', e, x, hfr, hown⟩ := spec_dos cfg p (specG cfg hw p hg) env k s ha hr hF
+  exact ⟨s', by simp [start, ha, e], x.uaf, x.aborted, hfr, hown,
+    fun a h => ⟨x.freed a h, x.cells a h (by omega)⟩⟩
+
+/-- Non-vacuity: nested drop_operation_state over when_all / split / continues_on; and the freed
+    range of a run (operation states 1‥3 of `dos(wa(just, sp(just)))` are destroyed, 0 is not). -/
+example : run Cfg.fixed (.dos (.thn (.add 1) (.dos (.wa (.just [1]) [.sp (.co .p (.just [2]))])))) =
+    { log := [.value [2, 3]], aborted := false, uaf := false } := by decide
+example : let s := start Cfg.fixed (.dos (.wa (.just [1]) [.sp (.just [2])])) [] (fun _ s => s) M.init
+    (s.next, s.freed 0, s.freed 1, s.freed 2, s.uaf) = (3, false, true, true, false) := by decide
 
 /-- a stopped-free pipeline never signals stopped -/
 theorem C03_stopped_free (t : Term) (h : stoppedFree t = true) (env : List Int) :
